@@ -10,6 +10,8 @@ CONSTANTS
   MacroCloses = {300}
   SnipDeeps = {200}
   FileChains = {1050, 1200, 4150}
+  SnipSplits = {100156, 1100156, 100157, 1100157}
+  FileSplits = {100156, 1100156, 100157, 1100157}
   Devs = {}
 INVARIANTS RowAndModel
 CHECK_DEADLOCK FALSE
